@@ -95,11 +95,24 @@ impl Parser {
                 return self.parse_impl(cursor, payload);
             }
 
-            let res = cursor.transaction(|cur| self.parse_impl(cur, payload));
+            // Nothing is committed until an entire frame has been validated. If the parser
+            // runs out of data in the middle of a candidate frame, the cursor is rolled back
+            // to the start of that candidate so that a later failure can resume the search
+            // one byte past it, no matter how the stream was split across reads.
+            let res = cursor.transaction(|cur| match self.parse_impl(cur, payload) {
+                Ok(Some(header)) => Ok(header),
+                Ok(None) => Err(None),
+                Err(err) => Err(Some(err)),
+            });
 
             match res {
-                Ok(x) => return Ok(x),
-                Err(_) => {
+                Ok(header) => return Ok(Some(header)),
+                Err(None) => {
+                    // need more data
+                    self.reset();
+                    return Ok(None);
+                }
+                Err(Some(_)) => {
                     let _ = cursor.read_u8(); // advance one byte
                     self.reset();
                     // goto next iteration
